@@ -22,7 +22,10 @@ sets per isinstance configuration), and numeric tokens become int when
 integral else float in set_config (both branches present, decided on the
 numeric value). C18.3: resetting a subset writes only keys that are in the
 subset and in the defaults, each from DEFAULT_SETTINGS_DICT; a full reset
-writes exactly the defaults. C18.4: the version upgrade calls
+writes exactly the defaults. C18.12: set, merge and reset of a subset write
+the dictionary they loaded and edited back to the path they were given
+(evaluated in the world "file exists, subset given" for reset). C18.4: the
+version upgrade calls
 merge_dicts(user settings, defaults, soft=True) in that order, and the soft
 branch only adds keys that are *absent* from the first dict (membership test,
 not a truthiness test). C18.5: SettingsContainer.__setattr__ raises when
@@ -66,6 +69,7 @@ MANIFEST = dict(
               "effect/sink inventory",
 )
 FLOORS = {"C18.1": 2, "C18.2": 4, "C18.3": 2, "C18.4": 3, "C18.5": 3,
+          "C18.12": 3,
           "C18.6": 4, "C18.7": 4, "C18.8": 4, "C18.9": 1,
           "C18.10": 2, "C18.11": 1}
 
@@ -92,6 +96,125 @@ def check(ctx):
     ctx.section(_token_windows, ctx, prog)
     ctx.section(_generate, ctx, prog)
     ctx.section(_sibling_settings, ctx, prog)
+    ctx.section(_persisted, ctx, prog)
+
+
+def _persisted(ctx, prog):
+    """C18.12: an edit is an edit of the *file*: set, merge and reset write
+    the dictionary they loaded and changed back to the path they were given
+    (otherwise "changes only the named keys" holds vacuously and "restores
+    exactly those keys" not at all)"""
+    from ..lib import indirect_calls
+
+    def writes(r):
+        out = []
+        for e in r.of_kind("call"):
+            n = e.data.get("name") or ""
+            b = e.data.get("bound") or {}
+            if n.endswith("settings.write_atomic") and b:
+                out.append((e, b.get("path"), b.get("text")))
+            elif n.endswith("settings.write_to_json_file") and b:
+                out.append((e, b.get("json_path"), b.get("dictionary")))
+            elif n == "json.dump" and len(e.data["args"]) >= 2:
+                out.append((e, e.data["args"][1], e.data["args"][0]))
+            elif n in (".write", ".write_text") and e.data["args"] and \
+                    e.data.get("recv") is not None:
+                out.append((e, e.data["recv"], e.data["args"][0]))
+        return out
+
+    def about(t, p) -> bool:
+        return isinstance(t, T) and any(x is p for x in t.walk())
+
+    def loaded(t) -> bool:
+        return isinstance(t, T) and any(
+            is_call_to(x, "json.load", "json.loads") for x in t.walk())
+
+    cases = [
+        (MC + "set_config", "config_path", [("set", {})]),
+        (MC + "merge_json_union", "first_file", [("merge", {})]),
+        (ST + "reset", "destination", [
+            ("reset of a subset", {"exists": True, "none": False,
+                                   "subset": True})]),
+    ]
+    for fq, pname, worlds in cases:
+        f = prog.func(fq)
+        ctx.require(pname in f.params, f"{fq}: parameter {pname} vanished")
+        r = Interp(prog).run(f)
+        P = tm.param(pname)
+        def is_path(t, depth=0) -> bool:
+            # the path itself, Path(path), open(path, "w"), a handle of it
+            t = Interp.unname(t) if isinstance(t, T) else t
+            if t is P:
+                return True
+            return isinstance(t, T) and depth < 3 and t.op == "call" and \
+                bool(t.args[1]) and is_path(t.args[1][0], depth + 1)
+        ws = [(e, pt, ct) for e, pt, ct in writes(r) if is_path(pt)]
+        handed_on = [e for e in r.of_kind("call")
+                     if e.data.get("target") is not None and
+                     not e.data.get("inlined") and
+                     not (e.data.get("name") or "").endswith(
+                         ("write_atomic", "write_to_json_file")) and
+                     any(v is P or (isinstance(v, T) and v.op == "call" and
+                                    len(v.args[1]) == 1 and v.args[1][0] is P)
+                         for v in (e.data.get("bound") or {}).values())]
+        for label, world in worlds:
+            def asg(t, world=world):
+                if t.op in ("and", "or", "not"):
+                    return None
+                if world:
+                    if is_call_to(t, ".exists", ".is_file",
+                                  "os.path.exists", "os.path.isfile") and \
+                            about(t, P):
+                        return world["exists"]
+                    S = tm.param("parameter_subset")
+                    if t is S:
+                        return world["subset"]
+                    if t.op == "cmp" and t.args[0] in ("Is", "IsNot") and \
+                            t.args[1] is S and tm.is_const(t.args[2], None):
+                        return world["none"] == (t.args[0] == "Is")
+                return None
+            live = [(e, tm.fold(e.live, asg), ct) for e, _, ct in ws]
+            sure = [x for x in live if x[1] is True]
+            ok = bool(sure) and any(loaded(ct) for _, _, ct in sure)
+            if not ws:
+                # written by a helper added later that was looked through (an
+                # atomic writer moved to another module): a file-creating
+                # call / a move onto a path derived from the given one
+                try:
+                    general = [(e, p_) for e, p_, _ in find_sinks(r)
+                               if about(p_, P)]
+                except Exception:
+                    general = []
+                general += [(e, e.data["args"][1]) for e in r.of_kind("call")
+                            if e.data.get("name") in ("os.replace",
+                                                      "os.rename",
+                                                      "shutil.move")
+                            and len(e.data["args"]) == 2 and
+                            is_path(e.data["args"][1])]
+                gl = [tm.fold(e.live, lambda t: None if t.op in (
+                    "and", "or", "not") else (False if t.op == "exc" else
+                                              asg(t))) for e, _ in general]
+                if any(v is True for v in gl):
+                    ok = True
+                    sure = [(general[gl.index(True)][0], True, None)]
+                elif general:
+                    ws = [(e, p_, None) for e, p_ in general]
+                    live = [(e, v, None) for (e, _), v in zip(general, gl)]
+            ctx.ob("C18.12", sure[0][0] if sure else f, ok,
+                   f"{label}: the dictionary loaded from `{pname}` and "
+                   f"edited is written back to `{pname}`" if ok else
+                   (f"{label}: nothing is written back to `{pname}` — the "
+                    f"edit is lost when the command ends" if not ws else
+                    f"{label}: the write to `{pname}` happens only under "
+                    f"{[fmt(e.live)[:60] for e, _, _ in ws]}, or does not "
+                    f"write the dictionary that was loaded and edited"),
+                   key=f"C18.12:persisted:{f.name}",
+                   # a write that exists only under conditions this rule
+                   # does not read, a helper of the program that is handed
+                   # the path, calls through values: no evidence
+                   evidence=not handed_on and not indirect_calls(r) and (
+                       not ws or all(v is False for _, v, _ in live) or
+                       bool(sure)))
 
 
 def _settings_keys_read(prog, q: str):
@@ -1843,6 +1966,26 @@ def _generate(ctx, prog):
 
 
 VARIANTS = [
+    dict(name="set-never-written", file="evo/main_config.py",
+         find="    settings.write_atomic(config_path,\n"
+              "                          json.dumps(config, indent=4, sort_keys=True))\n\n\n"
+              "def generate(",
+         replace="\n\ndef generate(", expect="fire", rule="C18.12"),
+    dict(name="set-written-by-json-helper", file="evo/main_config.py",
+         find="    settings.write_atomic(config_path,\n"
+              "                          json.dumps(config, indent=4, sort_keys=True))\n\n\n"
+              "def generate(",
+         replace="    settings.write_to_json_file(config_path, config)\n\n\n"
+                 "def generate(", expect="silent"),
+    dict(name="reset-subset-never-written", file="evo/tools/settings.py",
+         find="            reset_settings[parameter] = DEFAULT_SETTINGS_DICT[parameter]\n"
+              "        write_to_json_file(destination, reset_settings)\n",
+         replace="            reset_settings[parameter] = DEFAULT_SETTINGS_DICT[parameter]\n",
+         expect="fire", rule="C18.12"),
+    dict(name="merge-written-to-the-other-file", file="evo/main_config.py",
+         find="    settings.write_atomic(first_file,",
+         replace="    settings.write_atomic(second_file,",
+         expect="fire", rule="C18.12"),
     dict(name="membership-continue-removed", file="evo/main_config.py",
          find="        if arg not in config.keys():\n            continue\n",
          replace="", expect="fire", rule="C18.1"),
